@@ -13,6 +13,11 @@ CLAIMED = {
    note="Trusted: the ring model in props/c11.rs, the double-barrier argument (epoll batch semantics), the raw spec-encoding client. Kicks are raised on the current descriptor and on stale descriptors the front end still holds; fatal-by-protocol steps are skipped; an extra handler call for an active ring without a kick is only counted.",
    technique="model-based (stateful) property testing with bounded-exhaustive + proptest histories vs. reference ring model, double-barrier observation",
    ref="DESIGN.md section 3, C11"),
+ "C13": dict(level="exploration",
+   text="Stateful property testing of a real daemon: random histories of SET_MEM_TABLE/ADD_MEM_REG/REM_MEM_REG with generated geometry (adjacent/overlapping/duplicate/unordered regions, failing mmaps, user ranges up to the top of the 64-bit space), each step checked against a memory-table model: region set of the guest memory handed to the back end, update_memory count, byte backing in both directions through the passed files, and SET_VRING_ADDR translation probes at region edges. A refused request ends the connection (daemon policy), the harness reconnects to the same daemon, which is how 'previous table intact' is observed.",
+   note="Trusted: the memtable model in props/c13.rs, vm-memory's GuestMemory read/write as the observation channel, the double barrier for sampling the queue's descriptor-table address. Unsorted/overlapping SET_MEM_TABLE may fail or succeed; probes with overlapping user ranges are skipped; failing application update_memory callbacks are not injected.",
+   technique="model-based (stateful) property testing with proptest histories vs. memory-table reference model",
+   ref="DESIGN.md section 3, C13"),
  "C20": dict(level="exploration",
    text="Exhaustive enumeration of a boundary lattice per message type (about 9.5 million bit patterns, complete for the lattice) plus random 64-bit patterns, each judged in both directions against an independent predicate written from the property text in u128 arithmetic. Validators are pure functions of a few integer fields whose rules only have boundaries at the lattice points, so lattice-exhaustive + random search is the right level; it is not a proof over all 2^k patterns.",
    note="Trusted: refpred.rs (hand-written from the property/spec), the verif-hooks accessors that expose the private header validators. Bit patterns the rules leave open (range ending exactly at 2^64, padding word of the single-region body, inflight mmap_size==0) are accepted either way and counted as spec_silent.",
